@@ -18,18 +18,25 @@ pub struct Op {
     /// true: parse the operands into new Values right before the call and drop them right after
     /// (exercises address reuse); false: use the run's shared pool (`Arc<Value>` shared by all threads).
     pub fresh: bool,
+    /// two-operand helpers only: pass the *same reference* as both operands (`f(&v, &v)`). Aliasing
+    /// is part of what the caller does, so it is part of the operation's identity. Without it the
+    /// two operands are always distinct objects, even when their texts are equal.
+    pub alias: bool,
 }
 
 impl Op {
     pub fn apply(rule: &str, data: &str, fresh: bool) -> Op {
-        Op { kind: "apply".into(), args: vec![rule.into(), data.into()], fresh }
+        Op { kind: "apply".into(), args: vec![rule.into(), data.into()], fresh, alias: false }
     }
     pub fn helper(name: &str, args: Vec<String>, fresh: bool) -> Op {
-        Op { kind: format!("js:{}", name), args, fresh }
+        Op { kind: format!("js:{}", name), args, fresh, alias: false }
     }
     /// Content key: independent of `fresh` (an isolated result cannot depend on it).
     pub fn key(&self) -> String {
         let mut k = self.kind.clone();
+        if self.alias {
+            k.push_str("\u{1}alias");
+        }
         for a in &self.args {
             k.push('\u{1}');
             k.push_str(a);
@@ -37,20 +44,21 @@ impl Op {
         k
     }
     pub fn to_json(&self) -> Value {
-        json!({"kind": self.kind, "args": self.args, "fresh": self.fresh})
+        json!({"kind": self.kind, "args": self.args, "fresh": self.fresh, "alias": self.alias})
     }
     pub fn from_json(v: &Value) -> Option<Op> {
         Some(Op {
             kind: v.get("kind")?.as_str()?.to_string(),
             args: v.get("args")?.as_array()?.iter().map(|a| a.as_str().map(String::from)).collect::<Option<Vec<_>>>()?,
             fresh: v.get("fresh").and_then(|f| f.as_bool()).unwrap_or(false),
+            alias: v.get("alias").and_then(|f| f.as_bool()).unwrap_or(false),
         })
     }
     pub fn is_apply(&self) -> bool {
         self.kind == "apply"
     }
     pub fn short(&self) -> String {
-        let mut s = format!("{}({})", self.kind, self.args.join(" ; "));
+        let mut s = format!("{}{}({})", self.kind, if self.alias { "[same reference twice]" } else { "" }, self.args.join(" ; "));
         if s.len() > 300 {
             let mut cut = 300;
             while !s.is_char_boundary(cut) {
@@ -126,13 +134,15 @@ fn opt_f64_text(f: Option<f64>) -> String {
 
 /// Operand provider: shared pool or fresh parse.
 pub trait Pool: Sync {
-    fn get(&self, text: &str) -> Option<Arc<Value>>;
+    /// Shared operand for argument position `pos` with this text. Positions have separate pools,
+    /// so two operands of one call never alias by accident.
+    fn get(&self, pos: usize, text: &str) -> Option<Arc<Value>>;
 }
 
 fn operand(pool: &dyn Pool, op: &Op, i: usize) -> Arc<Value> {
     let text = &op.args[i];
     if !op.fresh {
-        if let Some(v) = pool.get(text) {
+        if let Some(v) = pool.get(i, text) {
             return v;
         }
     }
@@ -171,7 +181,7 @@ fn call(pool: &dyn Pool, op: &Op) -> Res {
     }
     if HELPERS_2.contains(&h) {
         let a = operand(pool, op, 0);
-        let b = operand(pool, op, 1);
+        let b = if op.alias { a.clone() } else { operand(pool, op, 1) };
         return match h {
             "abstract_eq" => Res::Ok(j::abstract_eq(&a, &b).to_string()),
             "abstract_ne" => Res::Ok(j::abstract_ne(&a, &b).to_string()),
